@@ -107,21 +107,42 @@ def diff_doc(a, b, path="", tol=False, mode="tol"):
     return None if a == b else "%s: %r != %r" % (path, a, b)
 
 
-def _unknown_type(d):
+def _bad_name(o, depth=0):
+    """every quantity name of a loaded aggregator is a string or None"""
+    if depth > 12:
+        return None
+    q = getattr(o, "quantity", None)
+    nm = getattr(q, "name", None)
+    if nm is not None and not isinstance(nm, str):
+        return (getattr(o, "name", type(o).__name__), nm)
+    for c in getattr(o, "children", []) or []:
+        if c is None:
+            continue
+        r = _bad_name(c, depth + 1)
+        if r is not None:
+            return r
+    return None
+
+
+def _unknown_type(o, depth=0):
+    """every primitive named by a loaded aggregator (its own type, the declared type of the bins of an empty sparse
+    container) is a registered one"""
     from histogrammar.defs import Factory
 
-    if isinstance(d, dict):
-        for k, v in d.items():
-            if (k == "type" or k.endswith(":type")) and isinstance(v, str) and v not in Factory.registered:
-                return v
-            r = _unknown_type(v)
-            if r is not None:
-                return r
-    elif isinstance(d, list):
-        for v in d:
-            r = _unknown_type(v)
-            if r is not None:
-                return r
+    if depth > 12:
+        return None
+    nm = getattr(o, "name", None)
+    if not isinstance(nm, str) or nm not in Factory.registered:
+        return nm
+    ct = o.__dict__.get("contentType")
+    if ct is not None and ct not in Factory.registered:
+        return ct
+    for c in getattr(o, "children", []) or []:
+        if c is None:
+            continue
+        r = _unknown_type(c, depth + 1)
+        if r is not None:
+            return r
     return None
 
 
@@ -367,6 +388,11 @@ class PyExec:
 
             msg = ctors.check(op[1], op[2], op[3])
             return ("violation: " + msg) if msg else "ok"
+        if k == "pickle":
+            import pickle
+
+            P[op[1]] = pickle.loads(pickle.dumps(P[op[2]]))
+            return "ok"
         if k == "denote":
             # ("denote", dst, empty, stream, filled): the model evaluates the closed-form specification of the
             # stream on the empty tree; on the implementation side the state to compare with is the filled tree
@@ -458,9 +484,12 @@ class PyExec:
             if neg is not None:
                 return "violation: accepted a document (%s) with negative entries %r in a %s" % (op[3], neg[0], neg[1])
             # every primitive named anywhere in an accepted document is a registered one
-            bogus = _unknown_type(op[2])
+            bogus = _unknown_type(P[op[1]])
             if bogus is not None:
                 return "violation: accepted a document (%s) that names an unknown primitive %r" % (op[3], bogus)
+            badname = _bad_name(P[op[1]])
+            if badname is not None:
+                return "violation: accepted a document (%s) and loaded a %s whose quantity name is %r, neither a string nor None" % (op[3], badname[0], badname[1])
             want = normalise_doc(canon_doc(op[2]))
             d = diff_doc(got, want, mode="strict")
             return ("violation: accepted a document that is not a valid serialisation (%s): %s" % (op[3], d)) if d else "ok"
@@ -613,7 +642,14 @@ def run_history(ops, model, check_states=True, py=None, replies=None, model_ops=
             if replies is not None:
                 replies.append("ok")
             continue
-        op = expand(op, py)
+        try:
+            op = expand(op, py)
+        except KeyError:
+            # the handle this operation reads was never created (the operation that should have made it raised): the
+            # failure is reported where it happened; this one is skipped on both sides
+            if replies is not None:
+                replies.append("raise:missing-handle")
+            continue
         try:
             rp = py.apply(op)
         except Exception as e:  # noqa: BLE001
